@@ -4,6 +4,7 @@
 #include "../sync_ondata/scripted_engine.h"
 #include "replay_io.h"
 #include <thread>
+#include <algorithm>
 int main(int argc, char **argv) {
   auto in = replay_io::load(argv[1]);
   int scen = (int)replay_io::u64(in["SCEN"]);
@@ -13,6 +14,23 @@ int main(int argc, char **argv) {
   std::atomic<int> gConn{0}, gClose{0};
   t->onConnect([&](SessionId, const TransportAddress &) { gConn++; });
   t->onClose([&](SessionId, const TransportErrorInfo &) { gClose++; });
+  if (scen == 4 || scen == 5) {
+    // connectSyncCancellable against an engine that never completes: SCEN 4 cancelled after 250 ms, SCEN 5 total timeout 350 ms
+    CancellationToken tok; const SessionId first = e->next;
+    std::thread canc([&] { if (scen == 4) { std::this_thread::sleep_for(std::chrono::milliseconds(250)); tok.cancel(); } });
+    auto t0 = std::chrono::steady_clock::now();
+    auto r = t->connectSyncCancellable("peer", 1, tok, TlsMode::None, std::chrono::milliseconds(scen == 4 ? 5000 : 350));
+    auto ms = std::chrono::duration_cast<std::chrono::milliseconds>(std::chrono::steady_clock::now() - t0).count(); canc.join();
+    size_t obtained = (size_t)(e->next - first);
+    printf("connectSyncCancellable -> %s code=%d after %lld ms; %zu connection attempts (ids %llu..), %zu closes issued\n", r.isOk() ? "ok" : "err", r.isOk() ? 0 : (int)r.error().code, (long long)ms, obtained, (unsigned long long)first, e->closed.size());
+    if (r.isOk()) replay_io::fail("K1 ok without a completed connect");
+    if (r.error().code != (scen == 4 ? TransportError::Cancelled : TransportError::Timeout)) replay_io::fail("K3/K5 definite error: Cancelled when cancelled, Timeout at the deadline");
+    for (SessionId s = first; s < e->next; s++) if (std::count(e->closed.begin(), e->closed.end(), s) != 1) replay_io::fail("K2 every id obtained by a timed-out / cancelled attempt must have had its close issued exactly once");
+    if (gConn != 0 || gClose != 0) replay_io::fail("S1 global callbacks fired");
+    printf("OBSERVATION: every 100 ms sub-timeout closes the attempt and opens a NEW connection: a handshake that needs more than ~100 ms can never complete through this entry point\n");
+    replay_io::ok("cancellable connect leaves nothing behind and returns a definite error");
+    return 0;
+  }
   const SessionId sid = e->next;       // the id the scripted engine will hand out
   std::thread io([&] {
     // wait until connectSync has registered and parked (it holds syncMutex from engine->connect() until the wait releases it)
